@@ -20,7 +20,7 @@ def run(pid, tier, seed, ctx):
             for f in sorted(os.listdir(corpus)):
                 if f.endswith(".cprog"):
                     runs.append(("corpus:" + f, ["--replay", os.path.join(corpus, f)]))
-        n = 3000 if tier == "quick" else 60000
+        n = 10000 if tier == "quick" else 60000
         nseeds = 1 if tier == "quick" else 4
         for k in range(nseeds):
             runs.append((f"seed {seed + k}", ["--seed", str(seed + k), "--cases", str(n)]))
